@@ -5,20 +5,129 @@ import RucteProps.C07
 /-!
 # C20 — Sass `static_name()` resolves to the published names
 
-`staticName names f` = the builtin: mangle `f` exactly as `add_static` does and look it up in
-`get_names()`.  `staticNamePinned` is the defective lookup of the pinned tree (only `-` and `.`
-were replaced), kept with its machine-checked counterexample.
+`staticName names f` = the builtin: mangle `f` exactly as `add_static` does, look it up in
+`get_names()`, and accept the entry only if its URL name is what a file called `f` is published as
+(`publishedAs`: `f` itself, or `stem-<8 characters>.ext`).
+`staticNamePinned` is the defective lookup of the pinned tree (only `-` and `.` were replaced) and
+`staticNameByIdent` the lookup by identifier alone (a non-member sharing a member's identifier
+resolved to that member); both are kept with their machine-checked counterexamples.
 -/
 namespace Ructe.C20
 open Nom
 
-/-- every file added before is found, and resolves to its published URL name -/
+/-! ## The shape test -/
+
+theorem hashedForm_iff (stem ext url : Bytes) :
+    hashedForm stem ext url = true ↔ ∃ h, h.length = 8 ∧ url = stem ++ [45] ++ h ++ [46] ++ ext := by
+  unfold hashedForm
+  constructor
+  · intro h
+    by_cases hp : stem.isPrefixOf url = true
+    · rw [if_pos hp] at h
+      obtain ⟨t, rfl⟩ := List.isPrefixOf_iff_prefix.mp hp
+      rw [List.drop_left] at h
+      cases t with
+      | nil => cases h
+      | cons c r =>
+        by_cases hc : c = 45
+        · subst hc
+          simp only [Bool.and_eq_true, beq_iff_eq] at h
+          refine ⟨r.take 8, ?_, ?_⟩
+          · simp only [List.length_take]; omega
+          · have hr : r = r.take 8 ++ r.drop 8 := (List.take_append_drop 8 r).symm
+            rw [h.2] at hr
+            conv => lhs; rw [hr]
+            simp [List.append_assoc]
+        · exfalso
+          revert h
+          split
+          · rename_i r' heq
+            simp only [List.cons.injEq] at heq
+            exact absurd heq.1 hc
+          · intro h; cases h
+    · rw [if_neg hp] at h; cases h
+  · rintro ⟨h, hl, rfl⟩
+    have hp : stem.isPrefixOf (stem ++ [45] ++ h ++ [46] ++ ext) = true := by
+      apply List.isPrefixOf_iff_prefix.mpr
+      exact ⟨[45] ++ h ++ [46] ++ ext, by simp [List.append_assoc]⟩
+    rw [if_pos hp]
+    have hd : (stem ++ [45] ++ h ++ [46] ++ ext).drop stem.length = 45 :: (h ++ 46 :: ext) := by
+      have : stem ++ [45] ++ h ++ [46] ++ ext = stem ++ (45 :: (h ++ 46 :: ext)) := by simp [List.append_assoc]
+      rw [this, List.drop_left]
+    rw [hd]
+    simp only [List.length_append, List.length_cons, Bool.and_eq_true, beq_iff_eq]
+    refine ⟨by omega, ?_⟩
+    rw [← hl, List.drop_left]
+
+/-- a verbatim URL name (`add_file_as`) is a published form of itself -/
+theorem publishedAs_verbatim (f : Bytes) : publishedAs f f = true := by
+  simp [publishedAs]
+
+/-- the hashed URL name of a file is a published form of its name (any directory part) -/
+theorem publishedAs_hashed (f stem ext slug : Bytes) (h : nameAndExt (baseName f) = some (stem, ext))
+    (hs : slug.length = 8) : publishedAs f (stem ++ [45] ++ slug ++ [46] ++ ext) = true := by
+  simp only [publishedAs, h, Bool.or_eq_true]
+  exact Or.inr ((hashedForm_iff _ _ _).mpr ⟨slug, hs, rfl⟩)
+
+/-- `a ++ "." ++ e` determines `a` and `e` when `e` has no dot -/
+theorem append_dot_inj : ∀ (e e' a b : Bytes), (46 : UInt8) ∉ e → (46 : UInt8) ∉ e' →
+    a ++ [46] ++ e = b ++ [46] ++ e' → a = b ∧ e = e' := by
+  intro e e' a b he he' h
+  have hr := congrArg List.reverse h
+  simp only [List.reverse_append, List.reverse_cons, List.nil_append, List.append_assoc, List.cons_append] at hr
+  have key : ∀ (x y ra rb : Bytes), (46 : UInt8) ∉ x → (46 : UInt8) ∉ y → x ++ 46 :: ra = y ++ 46 :: rb → x = y ∧ ra = rb := by
+    intro x
+    induction x with
+    | nil =>
+      intro y ra rb _ hy h
+      cases y with
+      | nil => simp at h; exact ⟨rfl, h⟩
+      | cons c y' =>
+        simp only [List.nil_append, List.cons_append, List.cons.injEq] at h
+        exact absurd (h.1 ▸ List.mem_cons_self) hy
+    | cons c x' ih =>
+      intro y ra rb hx hy h
+      cases y with
+      | nil =>
+        simp only [List.nil_append, List.cons_append, List.cons.injEq] at h
+        exact absurd (h.1 ▸ List.mem_cons_self) hx
+      | cons d y' =>
+        simp only [List.cons_append, List.cons.injEq] at h
+        obtain ⟨rfl, h2⟩ := h
+        obtain ⟨rfl, rfl⟩ := ih y' ra rb (fun m => hx (List.mem_cons_of_mem _ m)) (fun m => hy (List.mem_cons_of_mem _ m)) h2
+        exact ⟨rfl, rfl⟩
+  obtain ⟨h1, h2⟩ := key e.reverse e'.reverse a.reverse b.reverse (by simpa using he) (by simpa using he') hr
+  exact ⟨List.reverse_inj.mp h2, List.reverse_inj.mp h1⟩
+
+/-- **a hashed URL name belongs to one file name only**: if the URL name published for a file `g`
+(`sg-<slug>.eg`) passes the shape test for the requested name `f`, then `f` and `g` have the same
+stem and extension — the requested file *is* that file -/
+theorem hashed_url_determines_name (f g sf ef sg eg slug : Bytes)
+    (hf : nameAndExt (baseName f) = some (sf, ef)) (hg : nameAndExt g = some (sg, eg))
+    (hs : slug.length = 8) (h : hashedForm sf ef (sg ++ [45] ++ slug ++ [46] ++ eg) = true) :
+    sf = sg ∧ ef = eg ∧ baseName f = g := by
+  obtain ⟨hh, hl, he⟩ := (hashedForm_iff _ _ _).mp h
+  obtain ⟨hfs, hfd, _⟩ := C07.nameAndExt_shape _ _ _ hf
+  obtain ⟨hgs, hgd, _⟩ := C07.nameAndExt_shape _ _ _ hg
+  have e1 : (sg ++ [45] ++ slug) ++ [46] ++ eg = (sf ++ [45] ++ hh) ++ [46] ++ ef := by
+    simpa [List.append_assoc] using he
+  obtain ⟨h1, h2⟩ := append_dot_inj eg ef _ _ hgd hfd e1
+  have h3 : sg ++ [45] = sf ++ [45] := (List.append_inj' h1 (by omega)).1
+  have h4 : sg = sf := List.append_cancel_right h3
+  subst h4 h2
+  exact ⟨rfl, rfl, by rw [hfs, hgs]⟩
+
+/-! ## The lookup -/
+
+/-- every file added before is found, and resolves to its published URL name (`publishedAs_verbatim`,
+`publishedAs_hashed` + `C07.slug_shape` discharge the last hypothesis for the two ways a file is added) -/
 theorem static_name_total (ua : Nat → Bool) (names : List (Bytes × Bytes)) (f url : Bytes)
-    (hs : StrictSorted (names.map (·.1))) :
+    (hs : StrictSorted (names.map (·.1))) (hp : publishedAs f url = true) :
     staticName ua (btInsert (mangle ua f) url names) f = some url := by
   have _ := hs
   unfold staticName
-  exact btGet_btInsert_self _ _ _
+  rw [btGet_btInsert_self]
+  simp [Option.filter, hp]
 
 /-- later additions under other identifiers do not disturb it -/
 theorem static_name_stable (ua : Nat → Bool) (names : List (Bytes × Bytes)) (f g url : Bytes)
@@ -26,20 +135,63 @@ theorem static_name_stable (ua : Nat → Bool) (names : List (Bytes × Bytes)) (
     staticName ua (btInsert (mangle ua g) url names) f = staticName ua names f := by
   have _ := hs
   unfold staticName
-  exact btGet_btInsert_ne _ _ _ _ (Ne.symm hne)
+  rw [btGet_btInsert_ne _ _ _ _ (Ne.symm hne)]
 
 /-- a hit is always the entry recorded under the identifier of the queried name: a miss is an
 error (`none` = `CallError`), never another identifier's URL -/
 theorem static_name_never_wrong (ua : Nat → Bool) (names : List (Bytes × Bytes)) (f u : Bytes)
-    (h : staticName ua names f = some u) : (mangle ua f, u) ∈ names := by
+    (h : staticName ua names f = some u) : (mangle ua f, u) ∈ names ∧ publishedAs f u = true := by
   unfold staticName at h
-  exact btGet_some_mem h
+  rw [Option.filter_eq_some_iff] at h
+  exact ⟨btGet_some_mem h.1, h.2⟩
+
+/-- **exact**: whatever `static_name(f)` evaluates to is literally a published form of the *requested*
+name — `f` itself, or `stem-<8 bytes>.ext` with the stem and extension of `f` — never the URL of a file
+with another name that merely shares the identifier -/
+theorem static_name_exact (ua : Nat → Bool) (names : List (Bytes × Bytes)) (f u : Bytes)
+    (h : staticName ua names f = some u) :
+    u = f ∨ ∃ stem ext hh, nameAndExt (baseName f) = some (stem, ext) ∧ hh.length = 8 ∧
+      u = stem ++ [45] ++ hh ++ [46] ++ ext := by
+  have hp := (static_name_never_wrong ua names f u h).2
+  simp only [publishedAs, Bool.or_eq_true, beq_iff_eq] at hp
+  rcases hp with hp | hp
+  · exact Or.inl hp
+  · cases hn : nameAndExt (baseName f) with
+    | none => simp [hn] at hp
+    | some v =>
+      obtain ⟨stem, ext⟩ := v
+      simp only [hn] at hp
+      obtain ⟨hh, hl, he⟩ := (hashedForm_iff _ _ _).mp hp
+      exact Or.inr ⟨stem, ext, hh, rfl, hl, he⟩
+
+/-- … hence a name that was not added is a build error even when it shares its identifier with a file
+that was: if the only entry under the identifier is the hashed URL of a file `g` whose name is not the
+requested one, the lookup fails -/
+theorem static_name_nonmember_error (ua : Nat → Bool) (names : List (Bytes × Bytes)) (f g sg eg slug : Bytes)
+    (hg : nameAndExt g = some (sg, eg)) (hs : slug.length = 8)
+    (hget : btGet (mangle ua f) names = some (sg ++ [45] ++ slug ++ [46] ++ eg))
+    (hne : baseName f ≠ g) (hnv : f ≠ sg ++ [45] ++ slug ++ [46] ++ eg) :
+    staticName ua names f = none := by
+  unfold staticName
+  rw [hget]
+  simp only [Option.filter_some, ite_eq_right_iff, reduceCtorEq, imp_false, Bool.not_eq_true]
+  simp only [publishedAs, Bool.or_eq_false_iff, beq_eq_false_iff_ne, ne_eq]
+  refine ⟨fun h => hnv h.symm, ?_⟩
+  cases hf : nameAndExt (baseName f) with
+  | none => rfl
+  | some v =>
+    obtain ⟨sf, ef⟩ := v
+    simp only
+    cases hh : hashedForm sf ef (sg ++ [45] ++ slug ++ [46] ++ eg) with
+    | false => rfl
+    | true => exact absurd (hashed_url_determines_name f g sf ef sg eg slug hf hg hs hh).2.2 hne
 
 /-- a name that was never added (no entry under its identifier) is an error -/
 theorem static_name_missing (ua : Nat → Bool) (names : List (Bytes × Bytes)) (f : Bytes)
     (h : ∀ p ∈ names, p.1 ≠ mangle ua f) : staticName ua names f = none := by
   unfold staticName
-  exact btGet_none_of_not_mem h
+  rw [btGet_none_of_not_mem h]
+  rfl
 
 /-- **the compiled CSS is itself added as `<stem>.css`, named by the hash of the CSS bytes**
 (whatever rsass produced: `css` is universally quantified) -/
@@ -53,12 +205,29 @@ theorem sass_css_added (ue ua : Nat → Bool) (s : Statics) (src css stem ext : 
 #guard withExtension (str "in/q0.scss") (str "css") == str "in/q0.css"
 #guard withExtension (str "style") (str "css") == str "style.css"
 #guard nameAndExt (baseName (withExtension (str "a/b.x.scss") (str "css"))) == some (str "b.x", str "css")
+#guard publishedAs (str "a.b.css") (str "a.b-12345678.css")
+#guard publishedAs (str "to/a.css") (str "to/a.css")
+#guard !publishedAs (str "a_b.css") (str "a.b-12345678.css")
+#guard !publishedAs (str "a.css") (str "a-1234567.css")
 
 /-- the pinned lookup misses files that were added: `17.css` is stored under `n17_css` but looked
 up as `17_css` (finding #8, machine-checked) -/
 theorem pinned_counterexample :
     staticNamePinned (btInsert (mangle (fun _ => false) [49, 55, 46, 99, 115, 115]) [120] []) [49, 55, 46, 99, 115, 115] = none ∧
-    staticName (fun _ => false) (btInsert (mangle (fun _ => false) [49, 55, 46, 99, 115, 115]) [120] []) [49, 55, 46, 99, 115, 115] = some [120] := by
+    staticNameByIdent (fun _ => false) (btInsert (mangle (fun _ => false) [49, 55, 46, 99, 115, 115]) [120] []) [49, 55, 46, 99, 115, 115] = some [120] := by
   decide
+
+/-- the lookup by identifier alone resolved a name that was never added: with only `a.b.css` added,
+`static_name("a_b.css")` gave that file's URL (finding #11, machine-checked; the byte lists are
+`a.b.css`, `a.b-12345678.css`, `a_b.css`); the repaired lookup fails on it and still finds the member -/
+theorem pinned_ident_collision :
+    let names := btInsert (mangle (fun _ => false) [97, 46, 98, 46, 99, 115, 115]) [97, 46, 98, 45, 49, 50, 51, 52, 53, 54, 55, 56, 46, 99, 115, 115] []
+    staticNameByIdent (fun _ => false) names [97, 95, 98, 46, 99, 115, 115] = some [97, 46, 98, 45, 49, 50, 51, 52, 53, 54, 55, 56, 46, 99, 115, 115] ∧
+    staticName (fun _ => false) names [97, 95, 98, 46, 99, 115, 115] = none ∧
+    staticName (fun _ => false) names [97, 46, 98, 46, 99, 115, 115] = some [97, 46, 98, 45, 49, 50, 51, 52, 53, 54, 55, 56, 46, 99, 115, 115] := by
+  decide
+
+#guard str "a.b.css" == [97, 46, 98, 46, 99, 115, 115] && str "a_b.css" == [97, 95, 98, 46, 99, 115, 115]
+#guard str "a.b-12345678.css" == [97, 46, 98, 45, 49, 50, 51, 52, 53, 54, 55, 56, 46, 99, 115, 115]
 
 end Ructe.C20
